@@ -20,10 +20,10 @@ Definition m_rotate := Meth "RotateRefreshToken" [SItems [ICall "RevokeRefreshTo
 
 Definition m_revoke_pinned := Meth "RevokeRefreshToken"
   [SAcq "refreshTokenRequestIDsMutex" MW;
-   SItems [IAcc "RefreshTokenRequestIDs" MR; IAcc "RefreshTokens" MR; IAcc "RefreshTokens" MW]].
+   SItems [IAcc "RefreshTokenRequestIDs" MR; IAcc "RefreshTokens" MR; IAcc "RefreshTokens" MW]; SRet; SRet].
 Definition m_revoke_repaired := Meth "RevokeRefreshToken"
   [SAcq "refreshTokenRequestIDsMutex" MW; SAcq "refreshTokensMutex" MW;
-   SItems [IAcc "RefreshTokenRequestIDs" MR; IAcc "RefreshTokens" MR; IAcc "RefreshTokens" MW]].
+   SItems [IAcc "RefreshTokenRequestIDs" MR; IAcc "RefreshTokens" MR; IAcc "RefreshTokens" MW]; SRet; SRet].
 
 Definition tbl_pinned := [m_create; m_get; m_delete; m_delete_at; m_revoke_at; m_rotate; m_revoke_pinned].
 Definition tbl_repaired := [m_create; m_get; m_delete; m_delete_at; m_revoke_at; m_rotate; m_revoke_repaired].
@@ -70,17 +70,17 @@ Proof.
                  (m_body m_revoke_repaired) q_rrt (q_rat ++ [])); [left; reflexivity|reflexivity| |].
   { cbn [m_body m_revoke_repaired]. unfold q_rrt. apply bp_acq, bp_acq.
     eapply bp_acc; [right; left; reflexivity|].
-    apply (bp_stop _ [("refreshTokensMutex", MW); ("refreshTokenRequestIDsMutex", MW)]). }
+    apply bp_next, bp_ret. }
   apply bp_next.
   apply (bp_call _ [] [ICall "RevokeAccessToken"] [] "RevokeAccessToken" (m_body m_revoke_at) q_rat []);
-    [left; reflexivity|reflexivity| |apply bp_next, (bp_stop _ [] [])].
+    [left; reflexivity|reflexivity| |apply bp_next, bp_end].
   cbn [m_body m_revoke_at]. unfold q_rat. apply bp_acq.
   eapply bp_acc; [left; reflexivity|].
-  apply (bp_call _ [("accessTokenRequestIDsMutex", MR)] _ [] "DeleteAccessTokenSession" (m_body m_delete_at) q_del
+  apply (bp_call _ ["accessTokenRequestIDsMutex"] _ [] "DeleteAccessTokenSession" (m_body m_delete_at) q_del
                  [Rel "accessTokenRequestIDsMutex"]); [right; left; reflexivity|reflexivity| |].
   { cbn [m_body m_delete_at]. unfold q_del. apply bp_acq. eapply bp_acc; [left; reflexivity|].
-    apply bp_next, (bp_stop _ [("accessTokensMutex", MW)] []). }
-  apply bp_next, (bp_stop _ [("accessTokenRequestIDsMutex", MR)] []).
+    apply bp_next, bp_end. }
+  apply bp_next, bp_end.
 Qed.
 
 Example rotate_path_events :
@@ -100,7 +100,7 @@ Lemma p_get_path : tpath tbl_pinned p_get.
 Proof.
   rewrite <- (app_nil_r p_get). eapply (tp_cons _ "GetRefreshTokenSession"); [|apply tp_nil].
   exists (m_body m_get). split; [reflexivity|]. cbn. apply bp_acq.
-  eapply bp_acc; [left; reflexivity|]. apply bp_next, (bp_stop _ [("refreshTokensMutex", MR)] []).
+  eapply bp_acc; [left; reflexivity|]. apply bp_next, bp_end.
 Qed.
 
 Lemma p_revoke_path : tpath tbl_pinned p_revoke.
@@ -108,7 +108,7 @@ Proof.
   rewrite <- (app_nil_r p_revoke). eapply (tp_cons _ "RevokeRefreshToken"); [|apply tp_nil].
   exists (m_body m_revoke_pinned). split; [reflexivity|]. cbn. apply bp_acq.
   eapply bp_acc; [right; right; left; reflexivity|].
-  apply bp_next, (bp_stop _ [("refreshTokenRequestIDsMutex", MW)] []).
+  apply bp_next, bp_ret.
 Qed.
 
 Ltac nobody :=
@@ -137,3 +137,113 @@ Qed.
 Corollary repaired_shape_never_races progs s :
   Forall (tpath tbl_repaired) progs -> steps (init progs) s -> ~ race s.
 Proof. intros Hp Hs. exact (no_race _ repaired_accepted progs Hp s Hs). Qed.
+
+(* ---------------------------------------------------------------- the repaired tree (commits 0f6e2d9, 208b00a)
+   RevokeAccessToken no longer calls DeleteAccessTokenSession: it takes the index mutex (shared),
+   then the table mutex (exclusive), and loops over AccessTokens deleting every record of the
+   request.  [tbl_current] is the access/refresh-token part of the table as the translator emits it
+   for that tree: accepted, with the same order (index mutex before table mutex) as
+   CreateAccessTokenSession; taking the two mutexes the other way round is rejected as a cycle. *)
+Definition m_create_at := Meth "CreateAccessTokenSession"
+  [SAcq "accessTokenRequestIDsMutex" MW; SAcq "accessTokensMutex" MW;
+   SItems [IAcc "AccessTokens" MW]; SItems [IAcc "AccessTokenRequestIDs" MW]].
+Definition m_get_at := Meth "GetAccessTokenSession" [SAcq "accessTokensMutex" MR; SItems [IAcc "AccessTokens" MR]].
+Definition m_revoke_at_current := Meth "RevokeAccessToken"
+  [SAcq "accessTokenRequestIDsMutex" MR; SAcq "accessTokensMutex" MW;
+   SItems [IAcc "AccessTokens" MR; IAcc "AccessTokens" MW]].
+Definition m_revoke_at_swapped := Meth "RevokeAccessToken"
+  [SAcq "accessTokensMutex" MW; SAcq "accessTokenRequestIDsMutex" MR;
+   SItems [IAcc "AccessTokens" MR; IAcc "AccessTokens" MW]].
+
+Definition tbl_current :=
+  [m_create_at; m_get_at; m_delete_at; m_revoke_at_current; m_create; m_get; m_delete; m_rotate; m_revoke_repaired].
+
+Example current_accepted : lock_discipline_ok tbl_current = true.
+Proof. vm_compute. reflexivity. Qed.
+Example current_order :
+  rank (rk_of tbl_current) "accessTokenRequestIDsMutex" < rank (rk_of tbl_current) "accessTokensMutex" /\
+  rank (rk_of tbl_current) "refreshTokenRequestIDsMutex" < rank (rk_of tbl_current) "refreshTokensMutex".
+Proof. vm_compute. split; repeat constructor. Qed.
+Example current_guards :
+  G_of tbl_current = [("AccessTokens", "accessTokensMutex"); ("AccessTokenRequestIDs", "accessTokenRequestIDsMutex");
+                      ("RefreshTokens", "refreshTokensMutex"); ("RefreshTokenRequestIDs", "refreshTokenRequestIDsMutex")].
+Proof. vm_compute. reflexivity. Qed.
+Example swapped_rejected :
+  diagnose [m_create_at; m_get_at; m_delete_at; m_revoke_at_swapped]
+  = ["lockorder:CreateAccessTokenSession:accessTokenRequestIDsMutex>accessTokensMutex";
+     "lockorder:RevokeAccessToken:accessTokensMutex>accessTokenRequestIDsMutex"].
+Proof. vm_compute. reflexivity. Qed.
+
+(* a path of the repaired RevokeAccessToken: the loop body runs twice (read, delete, read, delete) *)
+Example revoke_at_loop_path :
+  tpath tbl_current
+    ([Acq "accessTokenRequestIDsMutex" MR; Acq "accessTokensMutex" MW;
+      Acc "AccessTokens" MR; Acc "AccessTokens" MW; Acc "AccessTokens" MR; Acc "AccessTokens" MW;
+      Rel "accessTokensMutex"; Rel "accessTokenRequestIDsMutex"] ++ []).
+Proof.
+  apply (tp_cons _ "RevokeAccessToken"); [|apply tp_nil].
+  exists (m_body m_revoke_at_current). split; [reflexivity|]. cbn [m_body m_revoke_at_current].
+  apply bp_acq, bp_acq.
+  eapply bp_acc; [left; reflexivity|]. eapply bp_acc; [right; left; reflexivity|].
+  eapply bp_acc; [left; reflexivity|]. eapply bp_acc; [right; left; reflexivity|].
+  apply bp_next, bp_end.
+Qed.
+
+Corollary current_shape_safe progs s :
+  Forall (tpath tbl_current) progs -> steps (init progs) s ->
+  ~ race s /\ (finished s \/ exists s', step s s').
+Proof.
+  intros Hp Hs. split; [exact (no_race _ current_accepted progs Hp s Hs)|exact (no_deadlock _ current_accepted progs Hp s Hs)].
+Qed.
+
+(* ---------------------------------------------------------------- explicit Unlock and early returns
+   The shape of a "tidied" SetClientAssertionJWT: Lock without defer, an early return on the
+   "already known" path, Unlock before the final return.  The early return leaves the mutex held:
+   rejected with [held-at-return], and the rejection is semantic — after one such call the next
+   call of the same goroutine can never acquire the mutex and no thread can step.  With the
+   Unlock on every path (or with defer) the shape is accepted. *)
+Definition m_setjwt_leaky := Meth "SetClientAssertionJWT"
+  [SLock "blacklistedJTIsMutex" MW; SItems [IAcc "BlacklistedJTIs" MR; IAcc "BlacklistedJTIs" MW];
+   SItems [IAcc "BlacklistedJTIs" MR]; SRet; SItems [IAcc "BlacklistedJTIs" MW]; SUnlock "blacklistedJTIsMutex"; SRet].
+Definition m_setjwt_explicit_ok := Meth "SetClientAssertionJWT"
+  [SLock "blacklistedJTIsMutex" MW; SItems [IAcc "BlacklistedJTIs" MR; IAcc "BlacklistedJTIs" MW];
+   SItems [IAcc "BlacklistedJTIs" MR; IAcc "BlacklistedJTIs" MW]; SUnlock "blacklistedJTIsMutex"; SRet].
+Definition m_jwtvalid := Meth "ClientAssertionJWTValid" [SAcq "blacklistedJTIsMutex" MR; SItems [IAcc "BlacklistedJTIs" MR]; SRet; SRet].
+
+Example leaky_tags : diagnose [m_setjwt_leaky; m_jwtvalid] = ["held-at-return:SetClientAssertionJWT:blacklistedJTIsMutex"].
+Proof. vm_compute. reflexivity. Qed.
+Example explicit_ok_accepted : lock_discipline_ok [m_setjwt_explicit_ok; m_jwtvalid] = true.
+Proof. vm_compute. reflexivity. Qed.
+Example double_unlock_tags :
+  diagnose [Meth "A" [SLock "m" MW; SItems [IAcc "T" MW]; SUnlock "m"; SUnlock "m"]] = ["unlock-not-held:A:m"].
+Proof. vm_compute. reflexivity. Qed.
+Example unlock_of_deferred_tags :
+  diagnose [Meth "A" [SAcq "m" MW; SItems [IAcc "T" MW]; SUnlock "m"]] = ["deferred-unlock-not-held:A"].
+Proof. vm_compute. reflexivity. Qed.
+
+Definition p_leak := [Acq "blacklistedJTIsMutex" MW; Acc "BlacklistedJTIs" MR].
+
+Lemma p_leak_path : mpath [m_setjwt_leaky; m_jwtvalid] "SetClientAssertionJWT" p_leak.
+Proof.
+  exists (m_body m_setjwt_leaky). split; [reflexivity|]. cbn. apply bp_lock, bp_next.
+  eapply bp_acc; [left; reflexivity|]. apply bp_next, bp_ret.
+Qed.
+
+Theorem leaky_shape_deadlocks :
+  exists progs s, Forall (tpath [m_setjwt_leaky; m_jwtvalid]) progs /\ steps (init progs) s /\
+                  ~ finished s /\ ~ exists s', step s s'.
+Proof.
+  exists [p_leak ++ (p_leak ++ [])].
+  eexists. split; [|split; [|split]].
+  - repeat constructor. eapply tp_cons; [apply p_leak_path|]. eapply tp_cons; [apply p_leak_path|apply tp_nil].
+  - eapply steps_step. eapply steps_step. eapply steps_step. apply steps_refl.
+    + eapply (st_lock_announce _ 0 "blacklistedJTIsMutex"); [reflexivity|reflexivity|nobody].
+    + eapply (st_lock_granted _ 0 "blacklistedJTIsMutex"); [reflexivity|reflexivity|nobody].
+    + eapply (st_access _ 0). reflexivity.
+  - intros Hf. specialize (Hf 0). discriminate Hf.
+  - intros [s' Hs]. inversion Hs as [t m r Hr Hp Hen | t m r Hr Hp Hen | t m r Hr Hp Hen | t tbl a r Hr | t m r Hr];
+      destruct t as [|t]; cbn in Hr; try discriminate;
+      try (destruct t; discriminate).
+    + (* thread 0 asks for the mutex it still holds *)
+      injection Hr as <- _. destruct (Hen 0) as [Hw _]. apply Hw. unfold whold. cbn. now left.
+Qed.
